@@ -368,7 +368,7 @@ pub fn run(args: &Args) {
         move |_| {
             println!("VIOLATION property={p2} replay={rd}/hang");
         },
-        |i, line, st| replay_line(st, &prop, seed, i, line, None),
+        |i, line, st| guard_case(st, &prop, "replay-sim", line, |st| replay_line(st, &prop, seed, i, line, None)),
     );
     finish(stats, args.req("out"), args.req("replay-dir"), json!({"lines": lines.len()}));
 }
@@ -377,7 +377,8 @@ pub fn replay_one(v: &Value) -> bool {
     silence_panics();
     let mut st = Stats::default();
     let conc = v.get("conc").map(|c| Concretisation::from_json(c).name);
-    replay_line(&mut st, v["property"].as_str().unwrap_or("C04"), v["seed"].as_u64().unwrap_or(1), 0, &v["line"], conc.as_deref());
+    let prop = v["property"].as_str().unwrap_or("C04").to_string();
+    guard_case(&mut st, &prop, "replay-sim", &v["line"], |st| replay_line(st, &prop, v["seed"].as_u64().unwrap_or(1), 0, &v["line"], conc.as_deref()));
     for x in &st.violations {
         println!("reproduced: {}", x.what);
         if let Some(d) = x.replay["diffs"].as_array() {
